@@ -29,6 +29,56 @@ def showNats (l : List Nat) : String := " ".intercalate (l.map toString)
 def showInts (l : List Int) : String := " ".intercalate (l.map toString)
 def showLL (l : List (List Nat)) : String := " | ".intercalate (l.map showNats)
 
+
+/-! bit-mask engine (`CvModel/Bitmask.lean`): kernel-level and whole-engine queries, one per line, lists separated by `|` -/
+namespace BmReader
+open Cv.Bitmask
+def bmNums (s : String) : List Nat := (s.splitOn " ").filterMap fun t => t.toNat?
+def bmShowL (l : List Nat) : String := " ".intercalate (l.map toString)
+
+def bmAnswer (line : String) : String :=
+  match line.splitOn "|" with
+  | [] => "?"
+  | hd :: rest =>
+    let toks := (hd.splitOn " ").filter (· ≠ "")
+    let cmd := toks.headD ""
+    let a := toks.drop 1 |>.filterMap (·.toNat?)
+    let lists := rest.map bmNums
+    match cmd with
+    | "ENC" => toString (encodePerm a)
+    | "DEC" => bmShowL (decodePerm (a.getD 0 0) (a.getD 1 0))
+    | "BC" => toString (bitCount (a.map (BitVec.ofNat 64)).toArray)
+    | "BCN" => toString ((a.map fun w => bitCount64Numba (BitVec.ofNat 64 w)).sum)
+    | "PM2L" => bmShowL ((lists.getD 0 []).map (prefixMap2 (a.getD 0 0)))
+    | "PM1" => toString (prefixMap1 (a.getD 0 0) (a.getD 1 0))
+    | "PM2" => toString (prefixMap2 (a.getD 0 0) (a.getD 1 0))
+    | "PM1ALL" => bmShowL ((List.range (fact (a.getD 0 0))).map (prefixMap1 (a.getD 0 0)))
+    | "CHUNK" =>
+      let c := mkChunk (a.getD 0 0) (a.getD 1 0) (lists.getD 0 [])
+      s!"{bmShowL c.map1} | {bmShowL c.map2} | {c.encodedSuffix} | {chunkAsserts (a.getD 0 0) (a.getD 1 0) (lists.getD 0 [])}"
+    | "P2R" =>
+      let c := mkChunk (a.getD 0 0) (a.getD 1 0) (lists.getD 0 [])
+      bmShowL ((lists.getD 1 []).map (permToRank (a.getD 1 0) c))
+    | "R2P" =>
+      let c := mkChunk (a.getD 0 0) (a.getD 1 0) (lists.getD 0 [])
+      bmShowL ((lists.getD 1 []).flatMap fun r => [rankToPrefix (a.getD 1 0) c.map1 r, rankToPerm (a.getD 1 0) c r])
+    | "MASK" => toString (suffixMask (a.getD 0 0) (a.getD 1 0))
+    | "GEN" =>
+      let prog := Cv.Codec.compile (lists.getD 0 []) 4 (a.getD 0 0)
+      bmShowL ((lists.getD 1 []).map (permFunc prog))
+    | "UNIQ" => bmShowL (npUnique a)
+    | "GS" => bmShowL (groupStarts a)
+    | "NCHUNKS" => toString (initChunks (a.getD 0 0) (a.getD 1 0)).length
+    | "SUFFIXES" =>
+      " | ".intercalate ((initChunks (a.getD 0 0) (a.getD 1 0)).map fun vc => bmShowL vc.chunk.suffix)
+    | "BFS" =>
+      match bfsBitmask (a.getD 0 0) (a.getD 1 0) (lists.drop 1) (lists.getD 0 []) (a.getD 2 0) with
+      | .ok sizes => "OK " ++ bmShowL sizes
+      | .error e => "ERR " ++ reprStr e
+    | _ => "?"
+
+end BmReader
+
 /-- with a table: the implementation's hash; a miss maps outside the int64 range (never collides silently) -/
 def DState.hash (d : DState) : Nat → Int :=
   if d.tab.isEmpty then fun x => (x : Int)
@@ -377,6 +427,7 @@ def handleKernel (line : String) : Option String :=
       match ints hay, ints vs with
       | some hay, some vs => some (showNats (vs.map fun v => if isinSorted hay v then 1 else 0))
       | _, _ => some "ERR parse"
+    | ["bm"], rest => some (BmReader.bmAnswer (" ; ".intercalate rest))
     | ["hset"], q :: batches =>
       match ints q, batches.mapM ints with
       | some q, some bs =>
